@@ -1,6 +1,9 @@
 package main
 
 import (
+	"sort"
+	"os"
+	"encoding/json"
 	"flag"
 	"math/rand"
 
@@ -49,6 +52,7 @@ func graphGen(args []string) error {
 	nids := fs.Int("ids", 5, "identifier pool size")
 	mode := fs.String("mode", "edit", "edit | laws | extract | match | lookup | readonly | heap")
 	rich := fs.Float64("rich", 0.15, "probability of each attribute being populated")
+	universe := fs.String("universe", "", "allpairs mode: the merge universe exported by TLC from GraphLaws.tla (JSON)")
 	fs.Parse(args)
 	w, err := newNDWriter(*out)
 	if err != nil {
@@ -58,6 +62,36 @@ func graphGen(args []string) error {
 	r := rand.New(rand.NewSource(*seed))
 	s := &scriptWriter{w: w}
 	ids := idPool(*nids)
+	if *mode == "allpairs" {
+		// ordered pairs of the TLC-exported universe: all of them (--n 0) or a seeded sample of n
+		raw, err := os.ReadFile(*universe)
+		if err != nil {
+			return err
+		}
+		var u struct {
+			All []map[string]any `json:"all"`
+		}
+		if err := json.Unmarshal(raw, &u); err != nil {
+			return err
+		}
+		sort.Slice(u.All, func(i, j int) bool { return canon(u.All[i]) < canon(u.All[j]) })
+		emit := func(i, j int) {
+			s.sid++
+			w.write(map[string]any{"op": "Pair", "sid": s.sid, "x": u.All[i], "y": u.All[j]})
+		}
+		if *n == 0 {
+			for i := range u.All {
+				for j := range u.All {
+					emit(i, j)
+				}
+			}
+		} else {
+			for k := 0; k < *n; k++ {
+				emit(r.Intn(len(u.All)), r.Intn(len(u.All)))
+			}
+		}
+		return nil
+	}
 	for i := 0; i < *n; i++ {
 		switch *mode {
 		case "edit":
